@@ -198,6 +198,30 @@ func (c *Ctx) checkMultiKeyRoute() {
 			}
 		}
 	}
+	// and the groups leave in ascending shard order on every path: the sharded locker takes shards in that order,
+	// which is what makes it deadlock-free like the unsharded one
+	for _, t := range traces {
+		if t.End != EndReturn || !ok {
+			continue
+		}
+		sorted := false
+		for _, e := range t.Events {
+			if e.Kind == EvCall && e.Callee != nil && (strings.Contains(e.Callee.String(), "slices.Sort") || strings.Contains(e.Callee.String(), "sort.Slice") || strings.Contains(e.Callee.String(), "sort.Ints")) {
+				sorted = true
+			}
+		}
+		if !sorted {
+			// nothing to order when at most one group exists
+			trivial := hasFact(t.factsBefore(len(t.Events)), func(f Fact) bool {
+				k, isK := f.Y.intConst()
+				return f.X.Kind == KOp && f.X.Name == "len" && isK && ((f.Op == token.LEQ && k <= 1) || (f.Op == token.LSS && k <= 2) || (f.Op == token.EQL && k <= 1))
+			})
+			if !trivial {
+				ok = false
+				c.violated("C17.multi-key-route", cons, fn.Pos(), "the shard groups are returned without being sorted on a path where more than one group can exist: map iteration order decides the order in which shards are locked, two callers with the same key list can deadlock where the unsharded locker cannot", c.witness(t, len(t.Events)-1)...)
+			}
+		}
+	}
 	if ok && n > 0 {
 		c.holds("C17.multi-key-route", cons, fn.Pos(), fmt.Sprintf("%d grouping sites keyed by calKeyFn(key)", n))
 	} else if ok {
